@@ -23,6 +23,8 @@ Definition specOptSm := sp [("t", true); ("ns", false); ("id", true)].
 Definition specOptSx := sp [("ns", false)].
 Definition specOptTc := sp [("summary", false); ("nonum", false); ("mini", false); ("toc", false); ("lof", false); ("lot", false); ("lop", false); ("title", true)].
 Definition specOptXdtag := sp [("t", true); ("f", true); ("a", true); ("c", true)].
+Definition specOptXftag := sp [("t", true); ("f", true); ("shell", false); ("gsub", true); ("regexp", true)].
+Definition specOptRun : spec := [].
 Definition specOptXmtag := sp [("t", true); ("f", true); ("c", true); ("a", true); ("b", true); ("e", true)].
 Definition specOptXset := sp [("f", true)].
 Definition specOptHeader := sp [("id", true); ("nonum", false)].
